@@ -427,7 +427,7 @@ def argmax(ctx, F):
         mine = [p for p in pushes if any(is_call(x, 'AffTree::add_child_node') and x[3] == bb for x in walk(p[1][1]))]
         if len(mine) != 1 or not (mine[0][1][1][0] == 'agg' and s(mine[0][1][1][2][1]) == s(sub[2][1]) and s(mine[0][1][1][2][2]) == s(sub[2][2])):
             problems.append('work item of the label-%d child does not record its own (candidate, maximum) pair' % lab)
-        if not any(x[0] == 'true' and x[1][0] == 'bin' and x[1][1] == 'Lt' and s(x[1][2]) == s(a_) for x in l):
+        if not prune.holds_cmp(l, 'Lt', a_):
             problems.append('decision children are not guarded by candidate < dim-1')
     for bb, a, l in ter:
         lab = a[2][1] if a[2][0] == 'const' else None
